@@ -25,6 +25,12 @@ Sources and accepted idioms (anything else raises TranslateError = broken tie):
                         _vnacal_new_check_parameter(function, vnp, s_matrix[s_cell]) precedes it and the
                         _vnacal_new_err_need_full_s test lies between the two (repair of D17)
 
+  src/vnacal_internal.h  #define VNACAL_F_EXTRAPOLATION <decimal>, #define VNACAL_PREDEFINED_PARAMETERS <n>
+  clean-up paths         the calls made after a failure has been reported, before the function returns:
+                        vnadata_save.c "out:", vnacal_save.c "error:", vnacal_load.c "error:" (label to the end of
+                        the function), vnadata_load.c (between the call of vnadata_load_common and "if (rv == -1)")
+                        -> gen_cleanup_calls (function, callee names); none of these paths may assign errno
+
 Output: coq/Gen/ErrnoGen.v (never committed).
 """
 import os
@@ -213,12 +219,63 @@ def parse_add_common(srcdir):
     return checks[0] < need[0] < gets[0]
 
 
+def parse_constants(srcdir):
+    from fractions import Fraction
+    t = strip_comments(read(os.path.join(srcdir, "vnacal_internal.h")))
+    m = re.search(r"#define\s+VNACAL_F_EXTRAPOLATION\s+([0-9]+\.[0-9]+)\s", t)
+    n = re.search(r"#define\s+VNACAL_PREDEFINED_PARAMETERS\s+([0-9]+)\s", t)
+    if not m or not n:
+        raise TranslateError("vnacal_internal.h: VNACAL_F_EXTRAPOLATION / VNACAL_PREDEFINED_PARAMETERS not found")
+    return Fraction(m.group(1)), int(n.group(1))
+
+
+CLEANUP_SITES = [("vnadata_save.c", "vnadata_save_common", "out"), ("vnacal_save.c", "vnacal_save", "error"),
+                 ("vnacal_load.c", "vnacal_load", "error"), ("vnadata_load.c", "vnadata_load", None)]
+NOT_CALLS = set(["if", "for", "while", "switch", "return", "sizeof", "void"])
+
+
+def function_body(t, name, path):
+    m = re.search(r"\b%s\s*\([^;{]*\)\s*\{" % re.escape(name), t)
+    if not m:
+        raise TranslateError("%s: function %s not found" % (path, name))
+    end = matching_brace(t, m.end() - 1)
+    return t[m.end():end]
+
+
+def parse_cleanup(srcdir):
+    out = []
+    for path, fn, label in CLEANUP_SITES:
+        t = strip_comments(read(os.path.join(srcdir, path)))
+        body = function_body(t, fn, path)
+        if label is not None:
+            m = list(re.finditer(r"\n%s:\s*\n" % label, body))
+            if len(m) != 1:
+                raise TranslateError("%s: label %s: of %s not found exactly once" % (path, label, fn))
+            block = body[m[0].end():]
+        else:
+            m = re.search(r"rv = vnadata_load_common\s*\([^;]*\);(.*?)if \(rv == -1\)", body, flags=re.S)
+            if not m:
+                raise TranslateError("%s: clean-up after vnadata_load_common not found" % path)
+            block = m.group(1)
+        if re.search(r"\berrno\s*=[^=]", block):
+            raise TranslateError("%s: the clean-up path of %s assigns errno" % (path, fn))
+        calls = [c for c in re.findall(r"\b([A-Za-z_][A-Za-z_0-9]*)\s*\(", block) if c not in NOT_CALLS]
+        seen = []
+        for c in calls:
+            if c not in seen:
+                seen.append(c)
+        out.append((fn, seen))
+    return out
+
+
 def translate(srcdir):
     enum = parse_enum(read(os.path.join(srcdir, "vnaerr.h")))
     table, default = parse_switch(read(os.path.join(srcdir, "vnaerr_verror.c")))
     man = parse_man_table(read(os.path.join(srcdir, "vnaerr.3")))
     z0 = parse_z0_bounds(srcdir)
     pre = parse_add_common(srcdir)
+    extrap, predefined = parse_constants(srcdir)
+    cleanup = parse_cleanup(srcdir)
     if default is None:
         raise TranslateError("vnaerr_verror.c: no default arm")
     missing = [c for c, _ in enum if c not in table]
@@ -230,14 +287,14 @@ def translate(srcdir):
         if c not in full:
             raise TranslateError("vnaerr.h: category VNAERR_%s of the manual is not in the enum" % c)
     return {"enum": enum, "table": full, "explicit": sorted(table), "default": default, "man": man, "z0": z0,
-            "add_common_prevalidates": pre}
+            "add_common_prevalidates": pre, "extrapolation": extrap, "predefined": predefined, "cleanup": cleanup}
 
 
 def emit(info):
     L = []
     L.append("(* GENERATED by translate/errno_table.py from src/vnaerr.h, src/vnaerr_verror.c, src/vnaerr.3 and")
     L.append("   src/vnadata_{get,set}_{z0,fz0}.c.  Do not edit. *)")
-    L.append("Require Import List ZArith Bool.")
+    L.append("Require Import List ZArith QArith Bool String.")
     L.append("Import ListNotations.")
     L.append("Require Import LV.Err.ErrBase.")
     L.append("Open Scope Z_scope.")
@@ -277,6 +334,15 @@ def emit(info):
     L.append("(* _vnacal_new_add_common: true when every parameter of the S matrix is validated, and the remaining")
     L.append("   argument checks are made, before any parameter is added to the vnacal_new_t (repair of D17) *)")
     L.append("Definition gen_add_common_prevalidates : bool := %s." % ("true" if info["add_common_prevalidates"] else "false"))
+    L.append("")
+    L.append("(* vnacal_internal.h *)")
+    L.append("Definition gen_f_extrapolation : Q := (%d # %d)%%Q." % (info["extrapolation"].numerator, info["extrapolation"].denominator))
+    L.append("Definition gen_predefined_parameters : Z := %d." % info["predefined"])
+    L.append("")
+    L.append("(* calls made on the clean-up paths that follow a reported failure *)")
+    L.append("Definition gen_cleanup_calls : list (string * list string) :=")
+    L.append("  [" + ";\n   ".join('("%s"%%string, [%s])' % (fn, "; ".join('"%s"%%string' % c for c in calls))
+                                   for fn, calls in info["cleanup"]) + "].")
     L.append("")
     return "\n".join(L)
 
